@@ -4,13 +4,18 @@
 package udprecv
 
 import (
+	"bytes"
 	"encoding/binary"
 	"fmt"
+	"io"
+	"log/slog"
 	"net/netip"
 	"runtime/debug"
 	"strconv"
 	"strings"
+	"sync"
 	"testing"
+	"time"
 	"unsafe"
 
 	"github.com/slackhq/nebula/udp"
@@ -118,8 +123,88 @@ func genSegSize(r *hlib.Rand, ln int) int64 {
 	return int64(r.Intn(4))
 }
 
+// probeOffloads: does this environment give a loopback listener UDP_GRO / UDP_SEGMENT?
+func probeOffloads() (gro, gso bool) {
+	c, err := udp.NewListener(quietLogger(), udp.Settings{Listen: netip.MustParseAddrPort("127.0.0.1:0"), Batch: 2, Offloads: true})
+	if err != nil {
+		return false, false
+	}
+	defer c.Close()
+	return udp.VerifGROEnabled(c), udp.VerifGSOEnabled(c)
+}
+
+func quietLogger() *slog.Logger { return slog.New(slog.NewTextHandler(io.Discard, nil)) }
+
+func sizesText(xs []int) string {
+	var parts []string
+	for _, x := range xs {
+		parts = append(parts, strconv.Itoa(x))
+	}
+	return strings.Join(parts, " ")
+}
+
+// genListenCase: one history of reads on a real loopback listener (the ListenOut loop itself, recvmmsg slot
+// reuse included): GSO bursts (arrive as one UDP_GRO superdatagram) and plain datagrams, interleaved, with the
+// sizes chosen around the previous burst's segment size so that "plain datagram longer than the stale
+// gso_size in the same slot" is common.
+func genListenCase(r *hlib.Rand, gro, gso bool, emit func(string, ...any)) {
+	batch := hlib.Pick(r, 2, 2, 4, 8, 64)
+	offloads := !r.Chance(1, 8)
+	if r.Chance(1, 16) {
+		batch = 1 // ListenOut without GRO buffers (cmsgSpace == 0)
+	}
+	expGro := gro && offloads && batch > 1
+	emit("reset listen %d %s %s %s", batch, hlib.B(offloads), hlib.B(expGro), hlib.B(gso))
+	lastSeg := 0
+	burst := func() []int {
+		g := hlib.Pick(r, 1, 2, 7, 100, 100, 500, 1200, 1400, r.Range(1, 1400))
+		k := hlib.Pick(r, 2, 3, 4, 10, r.Range(2, 40))
+		if g*k > 60000 {
+			k = 60000 / g
+		}
+		xs := make([]int, k)
+		for i := range xs {
+			xs[i] = g
+		}
+		if r.Chance(1, 3) {
+			xs[k-1] = r.Range(1, g) // short tail
+		}
+		lastSeg = g
+		return xs
+	}
+	plain := func() []int {
+		if lastSeg > 0 && r.Chance(3, 4) {
+			g := lastSeg
+			// never above the receive buffer of a listener without GRO (udp.MTU = 9001): a longer datagram is truncated
+			return []int{min(9000, hlib.Pick(r, g+1, 2*g, 2*g+1, 10*g, g*r.Range(2, 6)+r.Intn(g), g, max(1, g-1), 3*g))}
+		}
+		return []int{hlib.Pick(r, 1, 2, 100, 1000, 1400, 1401, 2801, 9000, r.Range(1, 9000))}
+	}
+	for round := r.Range(2, 5); round > 0; round-- {
+		for k := hlib.Pick(r, 1, 1, 1, 2, 3); k > 0; k-- {
+			if r.Chance(1, 2) {
+				emit("lsend %s", sizesText(burst()))
+			} else {
+				emit("lsend %s", sizesText(plain()))
+			}
+		}
+		emit("lrecv")
+	}
+}
+
 func gen(r *hlib.Rand, n int, tier, profile string, emit func(string, ...any)) {
 	emit("consts")
+	gro, gso := probeOffloads()
+	// the C27-5 shape first: a coalesced burst, then a plain datagram longer than its segment size
+	emit("reset listen 8 1 %s %s", hlib.B(gro), hlib.B(gso))
+	emit("lsend 100 100 100 100 100 100 100 100 100 100")
+	emit("lrecv")
+	emit("lsend 1000")
+	emit("lrecv")
+	listenEvery := 40
+	if tier == "thorough" {
+		listenEvery = 200
+	}
 	if tier == "thorough" {
 		// exhaustive small scope: every length ≤ 24 with every segment size in [-2, len+2]
 		for ln := 0; ln <= 24; ln++ {
@@ -130,6 +215,10 @@ func gen(r *hlib.Rand, n int, tier, profile string, emit func(string, ...any)) {
 		}
 	}
 	for i := 0; i < n; i++ {
+		if i%listenEvery == listenEvery/2 {
+			genListenCase(r, gro, gso, emit)
+			continue
+		}
 		switch k := r.Intn(20); {
 		case k < 6: // small payloads, bytes on the line
 			ln := hlib.Pick(r, 0, 1, 2, 3, 4, 7, 8, 9, 15, 16, 17, r.Intn(40), r.Intn(40), r.Intn(200))
@@ -222,7 +311,173 @@ func (g *guard) place(b []byte) []byte {
 	return dst
 }
 
+// listener is one real loopback receive path: rx runs the production ListenOut loop in a goroutine, tx sends to it.
+type listener struct {
+	rx, tx  udp.Conn
+	dst     netip.AddrPort
+	done    chan struct{}
+	mu      sync.Mutex
+	got     [][]byte
+	flushed int // len(got) at the last flush()
+	taken   int // pieces already reported by lrecv
+	seq     int // datagrams sent since reset
+	pending int // bytes sent since the last lrecv
+}
+
+func (l *listener) close() {
+	if l == nil {
+		return
+	}
+	if l.rx != nil {
+		l.rx.Close()
+		select {
+		case <-l.done:
+		case <-time.After(3 * time.Second):
+		}
+	}
+	if l.tx != nil {
+		l.tx.Close()
+	}
+}
+
+func openListener(batch int, offloads bool) (*listener, error) {
+	lo := netip.MustParseAddrPort("127.0.0.1:0")
+	rx, err := udp.NewListener(quietLogger(), udp.Settings{Listen: lo, Batch: batch, Offloads: offloads})
+	if err != nil {
+		return nil, err
+	}
+	tx, err := udp.NewListener(quietLogger(), udp.Settings{Listen: lo, Batch: 64, Offloads: true})
+	if err != nil {
+		rx.Close()
+		return nil, err
+	}
+	dst, err := rx.LocalAddr()
+	if err != nil {
+		rx.Close()
+		tx.Close()
+		return nil, err
+	}
+	l := &listener{rx: rx, tx: tx, dst: dst, done: make(chan struct{})}
+	go func() {
+		defer close(l.done)
+		_ = rx.ListenOut(func(_ netip.AddrPort, b []byte) {
+			l.mu.Lock()
+			l.got = append(l.got, bytes.Clone(b))
+			l.mu.Unlock()
+		}, func() {
+			l.mu.Lock()
+			l.flushed = len(l.got)
+			l.mu.Unlock()
+		})
+	}()
+	return l, nil
+}
+
+// datagram k of a case, n bytes long
+func listenPayload(k, n int) []byte {
+	b := make([]byte, n)
+	for i := range b {
+		b[i] = byte((k*37 + i*7 + 3) % 256)
+	}
+	return b
+}
+
+func pieceText(b []byte) string {
+	var h uint32
+	for _, x := range b {
+		h = h*31 + uint32(x)
+	}
+	return strconv.Itoa(len(b)) + ":" + strconv.FormatUint(uint64(h), 10)
+}
+
 func newExec(t *testing.T) func([]string) string {
+	var lst *listener
+	t.Cleanup(func() { lst.close() })
+	inner := newExecFn(t)
+	return func(a []string) string {
+		switch a[0] {
+		case "reset":
+			lst.close()
+			lst = nil
+			if len(a) < 4 || a[1] != "listen" {
+				return "bad-op"
+			}
+			l, err := openListener(hlib.Atoi(a[2]), a[3] == "1")
+			if err != nil {
+				return "gro=0 gso=0 err"
+			}
+			lst = l
+			return "gro=" + hlib.B(udp.VerifGROEnabled(l.rx)) + " gso=" + hlib.B(udp.VerifGSOEnabled(l.tx))
+		case "lsend":
+			if lst == nil || len(a) < 2 {
+				return "bad-op"
+			}
+			var bufs [][]byte
+			var addrs []netip.AddrPort
+			for _, s := range a[1:] {
+				n := hlib.Atoi(s)
+				if n < 1 || n > 65000 {
+					return "bad-op"
+				}
+				bufs = append(bufs, listenPayload(lst.seq, n))
+				addrs = append(addrs, lst.dst)
+				lst.seq++
+				lst.pending += n
+			}
+			if len(bufs) == 1 {
+				if err := lst.tx.WriteTo(bufs[0], lst.dst); err != nil {
+					return "err:" + strings.ReplaceAll(err.Error(), " ", "_")
+				}
+				return "sent=1"
+			}
+			n, err := lst.tx.WriteBatch(bufs, addrs)
+			if err != nil {
+				return "err:" + strings.ReplaceAll(err.Error(), " ", "_")
+			}
+			return "sent=" + strconv.Itoa(n)
+		case "lrecv":
+			if lst == nil {
+				return "bad-op"
+			}
+			deadline := time.Now().Add(2 * time.Second)
+			timeout := false
+			var out [][]byte
+			for {
+				lst.mu.Lock()
+				total := 0
+				for _, b := range lst.got[lst.taken:] {
+					total += len(b)
+				}
+				ready := total >= lst.pending && lst.flushed == len(lst.got)
+				if ready || time.Now().After(deadline) {
+					timeout = !ready
+					out = lst.got[lst.taken:]
+					lst.taken = len(lst.got)
+					lst.mu.Unlock()
+					break
+				}
+				lst.mu.Unlock()
+				time.Sleep(200 * time.Microsecond)
+			}
+			lst.pending = 0
+			var parts []string
+			for _, b := range out {
+				parts = append(parts, pieceText(b))
+			}
+			res := "-"
+			if len(parts) > 0 {
+				res = strings.Join(parts, ",")
+			}
+			if timeout {
+				return "timeout " + res
+			}
+			return res
+		}
+		return inner(a)
+	}
+}
+
+func newExecFn(t *testing.T) func([]string) string {
 	debug.SetPanicOnFault(true)
 	g := newGuard(1 << 17)
 	from := netip.MustParseAddrPort("192.0.2.1:4242")
